@@ -636,6 +636,8 @@ def write_evidence(run, P, proof_obls, discharged, backends, solver_s, covers, v
     ev = dict(property_id=run.pid, tier=run.tier, seed=run.seed, level="proof", coverage=cov,
               assumptions=list(getattr(P, "ASSUMPTIONS", [])) + [f"assumed (not proved) stdlib contract: {a}" for a in sorted(assumed)],
               wall_s=round(time.time() - run.t0, 2), violations=len(run.violations))
-    d = os.path.join(ROOT, "evidence")
+    # debugging runs (--only, --no-bounded) cover only part of the check: their report must never replace the evidence file
+    partial = bool(getattr(run.args, "only", None) or getattr(run.args, "no_bounded", False))
+    d = os.path.join(ROOT, ".cache", "partial_evidence") if partial else os.path.join(ROOT, "evidence")
     os.makedirs(d, exist_ok=True)
     json.dump(ev, open(os.path.join(d, f"{run.pid}.json"), "w"), indent=1, default=str)
